@@ -1,2 +1,222 @@
-/- Model driver for C02 (line protocol). Stub until the property's model lands. -/
-def main : IO Unit := pure ()
+/-
+  Model driver for C02 (line protocol). Imports Model + Gen only.
+  Functional ops: same lines as harness/c02_func.c, the answer must be identical to the harness's.
+  Validation ops (relational part): `valxz <check> <data> <xz>`, `valblock <check> <data> <block>`, `valalone <lzma>`:
+  the structural validator of Model/XzStruct.lean judges bytes produced by the real encoders.
+-/
+import XzVerif.Model.Proto
+import XzVerif.Model.Container
+import XzVerif.Model.XzStruct
+open XzVerif XzVerif.Proto XzVerif.Vli XzVerif.Container XzVerif.XzStruct
+
+/-- Fast hex → ByteArray ("-" = empty). -/
+def hexNib (c : UInt8) : Option UInt8 :=
+  if 48 ≤ c ∧ c ≤ 57 then some (c - 48) else if 97 ≤ c ∧ c ≤ 102 then some (c - 87)
+  else if 65 ≤ c ∧ c ≤ 70 then some (c - 55) else none
+
+def hexToBA (s : String) : Option ByteArray :=
+  if s == "-" then some ByteArray.empty
+  else
+    let u := s.toUTF8
+    if u.size % 2 ≠ 0 then none
+    else
+      let rec go (fuel i : Nat) (acc : ByteArray) : Option ByteArray :=
+        match fuel with
+        | 0 => some acc
+        | f + 1 =>
+          match hexNib (u.get! i), hexNib (u.get! (i + 1)) with
+          | some h, some l => go f (i + 2) (acc.push (h * 16 + l))
+          | _, _ => none
+      go (u.size / 2) 0 (ByteArray.emptyWithCapacity (u.size / 2))
+
+def hx (s : String) : Option (List UInt8) := (hexToBA s).map (·.toList)
+
+def vliArg (s : String) : Option (Option Nat) :=
+  if s == "u" then some none else s.toNat?.map some
+
+def showVli : Option Nat → String
+  | none => "u"
+  | some v => toString v
+
+def retHex : Res (List UInt8) → String
+  | .ok b => s!"0 {hexOfBytes b}"
+  | .error e => s!"{e} -"
+
+def parseFilter (tok : String) : Option FilterOpts :=
+  match tok.splitOn ":" with
+  | ["lzma1", id, lc, lp, pb, d] => do
+      pure (.lzma1 (← id.toNat?) (← lc.toNat?) (← lp.toNat?) (← pb.toNat?) (← d.toNat?))
+  | ["lzma2", d] => do pure (.lzma2 (← d.toNat?))
+  | ["bcj", id, off] => do pure (.bcj (← id.toNat?) (← off.toNat?))
+  | ["bcjn", id] => do pure (.bcj (← id.toNat?) 0)
+  | ["delta", d] => do pure (.delta (← d.toNat?))
+  | ["other", id] => do pure (.other (← id.toNat?))
+  | _ => none
+
+def showOpts : FilterOpts → String
+  | .lzma1 id lc lp pb d => s!"lzma1:{id}:{lc}:{lp}:{pb}:{d}"
+  | .lzma2 d => s!"lzma2:{d}"
+  | .bcj id off => s!"bcj:{id}:{off}"
+  | .delta d => s!"delta:{d}"
+  | .other id => s!"other:{id}"
+
+def showFilter (f : Filter) : String :=
+  match propsDecode f.id f.props with
+  | .ok o => showOpts o
+  | .error _ => s!"other:{f.id}"
+
+def parseRecord (tok : String) : Option IndexRecord :=
+  match tok.splitOn ":" with
+  | [u, c] => do pure ⟨← u.toNat?, ← c.toNat?⟩
+  | _ => none
+
+def showVal : Except String String → String
+  | .ok s => s
+  | .error e => "bad " ++ e
+
+def step (_ : Unit) (ws : List String) : Unit × String :=
+  let bad := ((), "bad-op")
+  match ws with
+  | ["vlisize", v] => match v.toNat? with
+    | some v => ((), toString (vliSize v))
+    | none => bad
+  | ["vlienc", v, avail] => match v.toNat?, avail.toNat? with
+    | some v, some a => ((), retHex (vliEncodeSingle v a))
+    | _, _ => bad
+  | ["vliencm", v, pos, avail] => match v.toNat?, pos.toNat?, avail.toNat? with
+    | some v, some p, some a =>
+      let (r, p', bs) := vliEncodeMulti v p a
+      ((), s!"{r} {p'} {hexOfBytes bs}")
+    | _, _, _ => bad
+  | ["vlidec", h] => match hx h with
+    | some b => match vliDecode b with
+      | some (v, rest) => ((), s!"0 {v} {b.length - rest.length}")
+      | none => ((), "9")
+    | none => bad
+  | ["vlidecm", vli, pos, h] => match vli.toNat?, pos.toNat?, hx h with
+    | some v, some p, some b =>
+      let (r, v', p', used) := vliDecodeMulti v p b
+      ((), s!"{r} {v'} {p'} {used}")
+    | _, _, _ => bad
+  | ["chksize", c] => match c.toNat? with
+    | some c => ((), toString (checkSize c))
+    | none => bad
+  | ["shenc", ver, chk] => match ver.toNat?, chk.toNat? with
+    | some v, some c => ((), retHex (streamHeaderEncode { version := v, check := c }))
+    | _, _ => bad
+  | ["sfenc", ver, chk, bs] => match ver.toNat?, chk.toNat?, vliArg bs with
+    | some v, some c, some bs => ((), retHex (streamFooterEncode { version := v, check := c } (bs.getD VLI_UNKNOWN)))
+    | _, _, _ => bad
+  | ["shdec", h] => match hx h with
+    | some b => match streamHeaderDecode b with
+      | .ok f => ((), s!"0 {f.check} {if f.version = 0 then 1 else 0}")
+      | .error e => ((), toString e)
+    | none => bad
+  | ["sfdec", h] => match hx h with
+    | some b => match streamFooterDecode b with
+      | .ok (f, bs) => ((), s!"0 {f.check} {bs}")
+      | .error e => ((), toString e)
+    | none => bad
+  | ["sfcmp", av, ac, abs, bv, bc, bbs] =>
+    match av.toNat?, ac.toNat?, vliArg abs, bv.toNat?, bc.toNat?, vliArg bbs with
+    | some av, some ac, some abs, some bv, some bc, some bbs =>
+      ((), toString (streamFlagsCompare { version := av, check := ac } abs { version := bv, check := bc } bbs))
+    | _, _, _, _, _, _ => bad
+  | ["propsize", f] => match parseFilter f with
+    | some o => match propsSize o with
+      | .ok s => ((), s!"0 {s}")
+      | .error e => ((), toString e)
+    | none => bad
+  | ["propenc", f] => match parseFilter f with
+    | some o => ((), retHex (propsEncode o))
+    | none => bad
+  | ["propdec", id, h] => match id.toNat?, hx h with
+    | some id, some b => match propsDecode id b with
+      | .ok o => ((), s!"0 {showOpts o}")
+      | .error e => ((), toString e)
+    | _, _ => bad
+  | ["ffsize", f] => match parseFilter f with
+    | some o => match filterFlagsSize o with
+      | .ok s => ((), s!"0 {s}")
+      | .error e => ((), toString e)
+    | none => bad
+  | ["ffenc", f, avail] => match parseFilter f, avail.toNat? with
+    | some o, some a => ((), retHex (filterFlagsEncodeOpts o a))
+    | _, _ => bad
+  | ["ffdec", h] => match hx h with
+    | some b => match filterFlagsDecode b with
+      | .ok (f, rest) => ((), s!"0 {showFilter f} {b.length - rest.length}")
+      | .error e => ((), toString e)
+    | none => bad
+  | "chain" :: ids => match ids.mapM (·.toNat?) with
+    | some ids => match validateChain ids with
+      | .ok n => ((), s!"0 {n}")
+      | .error e => ((), toString e)
+    | none => bad
+  | "bhsize" :: ver :: cs :: us :: fs => match ver.toNat?, vliArg cs, vliArg us, fs.mapM parseFilter with
+    | some v, some cs, some us, some fs => match blockHeaderSize v cs us fs with
+      | .ok s => ((), s!"0 {s}")
+      | .error e => ((), toString e)
+    | _, _, _, _ => bad
+  | "bhenc" :: ver :: hs :: chk :: cs :: us :: fs =>
+    match ver.toNat?, hs.toNat?, chk.toNat?, vliArg cs, vliArg us, fs.mapM parseFilter with
+    | some v, some hs, some c, some cs, some us, some fs => ((), retHex (blockHeaderEncodeWith v hs c cs us fs))
+    | _, _, _, _, _, _ => bad
+  | "bhenc2" :: chk :: cs :: us :: fs => match chk.toNat?, vliArg cs, vliArg us, fs.mapM parseFilter with
+    | some c, some cs, some us, some fs => ((), retHex (blockHeaderEncode c cs us fs))
+    | _, _, _, _ => bad
+  | ["bhdec", hs, chk, h] => match hs.toNat?, chk.toNat?, hx h with
+    | some hs, some c, some b => match blockHeaderDecodeWith hs c b with
+      | .ok bh => ((), s!"0 {showVli bh.compressedSize} {showVli bh.uncompressedSize} " ++ " ".intercalate (bh.filters.map showFilter))
+      | .error e => ((), toString e)
+    | _, _, _ => bad
+  | ["unpadded", ver, hs, chk, cs] => match ver.toNat?, hs.toNat?, chk.toNat?, vliArg cs with
+    | some v, some hs, some c, some cs => ((), s!"{blockUnpaddedSize v hs c cs} {blockTotalSize v hs c cs}")
+    | _, _, _, _ => bad
+  | ["compsize", ver, hs, chk, cs, up] => match ver.toNat?, hs.toNat?, chk.toNat?, vliArg cs, up.toNat? with
+    | some v, some hs, some c, some cs, some up => match blockCompressedSize v hs c cs up with
+      | .ok n => ((), s!"0 {n}")
+      | .error e => ((), toString e)
+    | _, _, _, _, _ => bad
+  | "idxenc" :: avail :: recs => match avail.toNat?, recs.mapM parseRecord with
+    | some a, some rs =>
+      -- first failing lzma_index_append, if any
+      let rec app (rs : List IndexRecord) (i : Nat) (acc : IndexAcc) : Option (Nat × Ret) :=
+        match rs with
+        | [] => none
+        | r :: rest => match indexAppend acc r.unpadded r.uncompressed with
+          | .error e => some (i, e)
+          | .ok acc' => app rest (i + 1) acc'
+      match app rs 0 {} with
+      | some (i, e) => ((), s!"append {i} {e}")
+      | none =>
+        let isz := indexSize rs.length (indexListSize rs)
+        match indexBufferEncode rs a with
+        | .ok b => ((), s!"0 {isz} {hexOfBytes b}")
+        | .error e => ((), s!"{e} {isz} -")
+    | _, _ => bad
+  | ["idxdec", h] => match hx h with
+    | some b => match indexDecode b with
+      | .ok (rs, rest) =>
+        ((), s!"0 {b.length - rest.length}" ++ String.join (rs.map fun r => s!" {r.unpadded}:{r.uncompressed}"))
+      | .error e => ((), toString e)
+    | none => bad
+  | ["idxarith", cnt, ls, bs] => match cnt.toNat?, ls.toNat?, bs.toNat? with
+    | some c, some l, some b => ((), s!"{indexSizeUnpadded c l} {indexSize c l} {indexStreamSize b c l}")
+    | _, _, _ => bad
+  | ["bound", n] => match n.toNat? with
+    | some n => ((), s!"{lzma2Bound n} {blockBufferBound64 n} {blockBufferBound n} {streamBufferBound n}")
+    | none => bad
+  | ["valxz", chk, d, o] => match chk.toNat?, hexToBA d, hexToBA o with
+    | some c, some d, some o => ((), showVal (validateXz o c d))
+    | _, _, _ => bad
+  | ["valblock", chk, d, o] => match chk.toNat?, hexToBA d, hexToBA o with
+    | some c, some d, some o => ((), showVal (validateLoneBlock o c d))
+    | _, _, _ => bad
+  | ["valalone", o] => match hexToBA o with
+    | some o => ((), showVal (validateAlone o))
+    | none => bad
+  | ["selftest"] => ((), if crcSelfTest then "ok" else "bad crc-self-test")
+  | _ => bad
+
+def main : IO Unit := runLoop step ()
